@@ -292,7 +292,8 @@ class SAngle:
         if isinstance(o, (int, float)):
             return SBool(z3.Not(self._eq(o)))
         raise Unsupported("equality of SAngle with %r" % (o,))
-    __hash__ = None
+    # hashable by identity (an angle object can be a cache key: the same object is the same angle)
+    __hash__ = object.__hash__
 
 
 def _any_sym(args):
